@@ -1124,7 +1124,7 @@ def st_altloc(tier):
         # duplicate atoms inside residues: each atom gets 1..3 copies; copies carry letter ids
         residues = []
         alt = []
-        plain = draw(st.sampled_from([True] + [False] * 11))  # file without any alternate location
+        plain = draw(st.sampled_from([False] * 11 + [True]))  # file without any alternate location
         for r in base["residues"]:
             atoms = []
             letters = draw(st.permutations(["A", "B", "C"]))
@@ -1139,6 +1139,11 @@ def st_altloc(tier):
                         atoms.append([an, el])
                         alt.append(letters[c])
             residues.append(dict(r, atoms=atoms))
+        if not plain and all(a in (".", "?") for a in alt):
+            # no duplicate drawn at all: give the first atom two conformations
+            first = residues[0]["atoms"][0]
+            residues[0] = dict(residues[0], atoms=[list(first)] + residues[0]["atoms"])
+            alt[0:1] = ["A", "B"]
         if draw(st.booleans()):
             # conformations stored block-wise (all A, then all B) instead of interleaved
             out_alt = []
